@@ -516,16 +516,28 @@ func c03R3(c *Ctx, p *Prog) {
 			}
 			if sf.Field == "Board.SquaresToPiece" {
 				// captured piece: must flow into an addPiece call as the piece argument, colour = STM.Flip()
-				okCap := false
+				okCap, colKnown, sawAdd := false, false, false
 				if getter.Referrers() != nil {
 					for _, r := range *getter.Referrers() {
 						if rc, ok := r.(*ssa.Call); ok && isCallTo(rc, "board.(*Board).addPiece") && len(rc.Call.Args) == 4 && rc.Call.Args[2] == ssa.Value(getter) {
-							col := rc.Call.Args[1]
-							if cc, ok := col.(*ssa.Call); ok && objName(calleeObj(cc)) == "chess.(Color).Flip" && isFieldLoad(cc.Call.Args[0], "Board.STM") {
-								okCap = isCallValueTo(rc.Call.Args[3], "board.(*Board).CaptureSq")
+							sawAdd = true
+							// the colour: the opponent of the mover = the side to move while the move is still made, or
+							// the flipped side to move once it has been flipped back
+							if ld, flipped, ok := stmOperand(rc.Call.Args[1], 0); ok {
+								ph := fieldPhase(p, un, "Board.STM", ld, true)
+								if ph == "orig" || ph == "made" {
+									colKnown = true
+									if (ph == "orig") == flipped {
+										okCap = isCallValueTo(rc.Call.Args[3], "board.(*Board).CaptureSq")
+									}
+								}
 							}
 						}
 					}
+				}
+				if sawAdd && !colKnown {
+					c.Undec(rule, key+"#restore", getter.Pos(), "the colour with which the captured piece is put back is not a recognised form of the side to move")
+					continue
 				}
 				c.Check(okCap, rule, key+"#restore", getter.Pos(), "captured piece from token field %s is put back with addPiece(opponent, piece, CaptureSq(m))", mask)
 				continue
@@ -617,24 +629,92 @@ func c03R4(c *Ctx, p *Prog, rule string) {
 		"board.(*Board).ResetHash": "reset", "board.ParseFEN": "whole-struct reset",
 	}
 	ws := p.writersOf("board.Board.hashes")
+	// helpers private to the make (undo) functions that hold the push (pop): analysed like the function they serve
+	helperKind := map[*ssa.Function]string{}
+	var specs []string
 	for _, w := range sortedKeys(ws) {
 		if _, ok := allowed[w]; ok {
 			continue
 		}
-		c.Fail(rule, "writer:"+w, ws[w][0].Pos, "%s changes the hash history outside make/undo/ResetHash: repetition detection sees a history that is not the game's", w)
+		var hf *ssa.Function
+		for _, f := range p.OwnFuncs() {
+			if fnName(f) == w {
+				hf = f
+			}
+		}
+		kind, private := "", hf != nil
+		if hf != nil {
+			ncall := 0
+			for _, caller := range p.OwnFuncs() {
+				if len(callsInFn(caller, hf)) == 0 {
+					continue
+				}
+				ncall++
+				k := allowed[fnName(caller)]
+				if hk, isH := helperKind[caller]; isH {
+					k = hk
+				}
+				if (k != "push" && k != "pop") || (kind != "" && kind != k) {
+					private = false
+				}
+				kind = k
+			}
+			if ncall == 0 {
+				private = false
+			}
+		}
+		if !private {
+			c.Fail(rule, "writer:"+w, ws[w][0].Pos, "%s changes the hash history outside make/undo/ResetHash: repetition detection sees a history that is not the game's", w)
+			continue
+		}
+		helperKind[hf] = kind
+		allowed[w] = kind
+		specs = append(specs, w)
 	}
 	n := 0
-	for _, spec := range sortedKeys(allowed) {
+	helperShape := map[*ssa.Function]bool{}
+	// helpers first (their verdict feeds the functions that call them)
+	order := append(specs, sortedKeys(allowed)...)
+	doneSpec := map[string]bool{}
+	for _, spec := range order {
+		if doneSpec[spec] {
+			continue
+		}
+		doneSpec[spec] = true
 		kind := allowed[spec]
 		if kind != "push" && kind != "pop" {
 			continue
 		}
 		fn := p.Func(spec)
 		if fn == nil {
+			for _, f := range p.OwnFuncs() {
+				if fnName(f) == spec {
+					fn = f
+				}
+			}
+		}
+		if fn == nil {
 			c.Anchor(rule, spec)
 			continue
 		}
-		sts := fieldStores(fn, "Board.hashes")
+		_, isHelper := helperKind[fn]
+		direct := fieldStores(fn, "Board.hashes")
+		var sts []ssa.Instruction
+		for _, st := range direct {
+			sts = append(sts, st)
+		}
+		helperCalls, helperOK := 0, true
+		allInstrs(fn, func(in ssa.Instruction) {
+			if ci, ok := in.(ssa.CallInstruction); ok {
+				if h := ci.Common().StaticCallee(); h != nil && helperKind[h] == kind && h != fn {
+					sts = append(sts, in)
+					helperCalls++
+					if !helperShape[h] {
+						helperOK = false
+					}
+				}
+			}
+		})
 		if len(sts) == 0 {
 			c.Fail(rule, spec+"#once", fn.Pos(), "no store to the hash history; exactly one %s per call is required", kind)
 			continue
@@ -669,15 +749,15 @@ func c03R4(c *Ctx, p *Prog, rule string) {
 			}
 			return false
 		}
-		shape := true
-		for _, st := range sts {
+		shape := helperOK
+		for _, st := range direct {
 			if !shapeOf(st) {
 				shape = false
 			}
 		}
 		isStore := func(x ssa.Instruction) bool {
 			for _, st := range sts {
-				if x == ssa.Instruction(st) {
+				if x == st {
 					return true
 				}
 			}
@@ -703,8 +783,12 @@ func c03R4(c *Ctx, p *Prog, rule string) {
 			c.Fail(rule, spec+"#once", sts[0].Pos(), "a path through %s stores to the hash history twice; exactly one %s per call is required", spec, kind)
 			continue
 		}
-		c.Check(every && shape, rule, spec+"#"+kind, sts[0].Pos(), "hash history %s by exactly one element on every path (on every path: %v, shape recognised: %v)", kind, every, shape)
-		n++
+		okOnce := c.Check(every && shape, rule, spec+"#"+kind, sts[0].Pos(), "hash history %s by exactly one element on every path (on every path: %v, shape recognised: %v)", kind, every, shape)
+		if isHelper {
+			helperShape[fn] = okOnce
+		} else {
+			n++
+		}
 	}
 	c.Floor(rule, n, 4, "push/pop functions")
 }
